@@ -138,11 +138,15 @@ struct BaseSpec {
     cfg: Cfg,
     comp: Comp,
     hash_len: usize,
+    /// How compress was driven (must not matter for what protects the archive):
+    /// source on stdin instead of -i FILE, and the --buffered-chunks value.
+    via_stdin: bool,
+    buffered: Option<usize>,
 }
 
 impl BaseSpec {
     fn json(&self) -> Value {
-        json!({"src_seed": self.src_seed, "src_len": self.src_len, "cfg": super::c09::cfg_json(&self.cfg), "comp": self.comp.describe(), "hash_len": self.hash_len})
+        json!({"src_seed": self.src_seed, "src_len": self.src_len, "cfg": super::c09::cfg_json(&self.cfg), "comp": self.comp.describe(), "hash_len": self.hash_len, "via_stdin": self.via_stdin, "buffered": self.buffered})
     }
     fn from(v: &Value) -> BaseSpec {
         let comp_s = v["comp"].as_str().unwrap();
@@ -163,6 +167,8 @@ impl BaseSpec {
             cfg: super::c09::cfg_from(&v["cfg"]),
             comp,
             hash_len: v["hash_len"].as_u64().unwrap() as usize,
+            via_stdin: v["via_stdin"].as_bool().unwrap_or(false),
+            buffered: v["buffered"].as_u64().map(|x| x as usize),
         }
     }
     fn source(&self) -> Vec<u8> {
@@ -173,7 +179,10 @@ impl BaseSpec {
         v
     }
     fn build(&self, dir: &Path) -> Result<Arch, String> {
-        scn::make_archive(dir, "a", &self.source(), &CompressSpec::new(self.cfg, self.comp, self.hash_len))
+        let mut cs = CompressSpec::new(self.cfg, self.comp, self.hash_len);
+        cs.buffered = self.buffered;
+        cs.stdin = if self.via_stdin { Some(self.src_seed | 1) } else { None };
+        scn::make_archive(dir, "a", &self.source(), &cs)
     }
 }
 
@@ -267,6 +276,8 @@ fn base_specs(rng: &mut Rng, n: usize) -> Vec<BaseSpec> {
             },
             comp: comps[i % comps.len()],
             hash_len: *rng.pick(&[8usize, 9, 16, 32, 64]),
+            via_stdin: i % 2 == 1,
+            buffered: [None, Some(1), Some(2), Some(3)][(i / 2 + i) % 4],
         })
         .collect()
 }
@@ -366,6 +377,8 @@ fn sampled(rep: &Report, seed: u64, tier: Tier) {
             },
             comp: gen::gen_comp(&mut rng, true),
             hash_len: *rng.pick(&[8usize, 12, 16, 64]),
+            via_stdin: rng.chance(1, 2),
+            buffered: *rng.pick(&[None, Some(1), Some(2), Some(8)]),
         };
         let dir = scn::case_dir("C04", 1000 + i);
         let mut out: Vec<(Result<&'static str, String>, Mutation)> = Vec::new();
@@ -562,6 +575,8 @@ fn lying_server(rep: &Report, seed: u64, tier: Tier) {
             cfg: Cfg::fixed(rng.urange(100, 700)),
             comp: gen::gen_comp(&mut rng, true),
             hash_len: *rng.pick(&[8usize, 16, 64]),
+            via_stdin: rng.chance(1, 2),
+            buffered: *rng.pick(&[None, Some(1), Some(2), Some(8)]),
         };
         let dir = scn::case_dir("C04", 4000 + i);
         let Ok(arch) = spec.build(&dir) else {
@@ -667,6 +682,8 @@ fn library(rep: &Report, seed: u64, tier: Tier) {
             },
             comp: gen::gen_comp(&mut rng, true),
             hash_len: *rng.pick(&[8usize, 10, 16, 64]),
+            via_stdin: rng.chance(1, 2),
+            buffered: *rng.pick(&[None, Some(1), Some(2), Some(8)]),
         };
         let dir = scn::case_dir("C04", 5000 + ai);
         let arch = spec.build(&dir);
